@@ -349,3 +349,42 @@ contract(F, 'TimeThread.rand_seed@setter', props=('C10',),
          note='random.Random is external: that equal seeds give equal streams, and that str/bytes '
               'seeds are digested independently of the hash seed, is CPython\'s documented '
               'behaviour and assumed')
+
+
+# ---- Routine.play: from Init or Paused only, scheduled exactly once on the right clock -------------------
+def play_getattr(eng, obj, name, st, node):
+    if obj.k == 'int' and name in STATES:            # `self.state.Paused`: an enum member reached through a member
+        return [(st, vint(STATES[name]))]
+    if obj.k == 'obj' and name == 'play' and obj.oid in ('clock', 'main.current_tt._clock'):
+        def play(eng, args, kwargs, st, node, _o=obj):
+            st.trace.append(('clock-play', _o.oid, tuple(args)))
+            return [(st, NONE)]
+        return [(st, V('func', py=('spec', play)))]
+    return h_getattr(eng, obj, name, st, node)
+
+
+def play_post(clock_kind):
+    def post(c):
+        ev = [e for e in c.trace if e[0] == 'clock-play']
+        pre, postst = c.pre.self.state, c.post.self.state
+        startable = z3.Or(pre == STATES['Init'], pre == STATES['Paused'])
+        if not ev:
+            return z3.And(z3.Not(startable), postst == pre)                    # any other state: nothing happens
+        want = 'clock' if clock_kind == 'obj' else 'main.current_tt._clock'   # the given clock, else the current thread's
+        ok = (len(ev) == 1 and ev[0][1] == want and len(ev[0][2]) == 2 and ev[0][2][0].k == 'ref'
+              and ev[0][2][0].oid == 'self' and ev[0][2][1] is c._params['quant'])
+        return z3.And(startable, postst == STATES['Suspended'], z3.BoolVal(bool(ok)))
+    return post
+
+
+for ck in ('none', 'obj'):
+    contract(F, 'Routine.play', props=('C11', 'C05'), params={'self': 'self', 'clock': ck, 'quant': 'obj'},
+             requires=lambda c: z3.And(c.pre.self.state >= 1, c.pre.self.state <= 5),
+             ensures=[('from-Init-or-Paused:suspended-and-scheduled-once-on-the-right-clock;else-nothing', play_post(ck))],
+             modifies=[('self', 'state')],
+             fields=dict(FIELDS, TimeThread=dict(TT_FIELDS, _clock='obj')),
+             hooks=dict(HOOKS, getattr=play_getattr), class_modules={'Routine': F}, native=False)
+    from vf.pyvc.spec import REGISTRY
+    key = '%s::Routine.play#clock-%s' % (F, 'given' if ck == 'obj' else 'inherited')
+    REGISTRY[key] = REGISTRY.pop('%s::Routine.play' % F)
+    REGISTRY[key].key = key
